@@ -151,6 +151,17 @@ func (g *G) Fill(m protoreflect.Message, depth int) {
 			sub := m.Mutable(fd).Message()
 			if fd.Message().FullName() == "google.protobuf.Timestamp" {
 				ts := timestamppb.New(timeAt(g.R))
+				if !g.P.Serialisable && g.R.Intn(6) == 0 {
+					// out-of-range values survive protobuf decoding and programmatic construction
+					switch g.R.Intn(3) {
+					case 0:
+						ts.Nanos = -5
+					case 1:
+						ts.Nanos = 2000000000
+					default:
+						ts.Seconds = 1 << 60
+					}
+				}
 				sub.Set(sub.Descriptor().Fields().ByName("seconds"), protoreflect.ValueOfInt64(ts.Seconds))
 				sub.Set(sub.Descriptor().Fields().ByName("nanos"), protoreflect.ValueOfInt32(ts.Nanos))
 				continue
@@ -366,6 +377,10 @@ func (g *G) NodeList() *sbom.NodeList {
 		}
 		nl.Edges = append(nl.Edges, e)
 	}
+	// now and then the same identifier twice, with different content (ill-formed lists are operands too)
+	if !g.P.Serialisable && n > 1 && g.R.Intn(4) == 0 {
+		nl.Nodes = append(nl.Nodes, g.Node(g.id(g.R.Intn(n))))
+	}
 	// nodes are stored in no particular order
 	g.R.Shuffle(len(nl.Nodes), func(i, j int) { nl.Nodes[i], nl.Nodes[j] = nl.Nodes[j], nl.Nodes[i] })
 	nr := g.R.Intn(4)
@@ -427,7 +442,28 @@ func Dump(m proto.Message) string {
 	return b.String()
 }
 
+// DumpNorm is Dump with timestamps rendered as the instant they denote (out-of-range seconds/nanos
+// normalised the way Timestamp.AsTime does).
+func DumpNorm(m proto.Message) string {
+	if m == nil {
+		return "<nil>"
+	}
+	normTS = true
+	defer func() { normTS = false }()
+	var b strings.Builder
+	dumpMsg(&b, m.ProtoReflect(), "")
+	return b.String()
+}
+
+var normTS bool
+
 func dumpMsg(b *strings.Builder, m protoreflect.Message, path string) {
+	if normTS && m.IsValid() && m.Descriptor().FullName() == "google.protobuf.Timestamp" {
+		if ts, ok := m.Interface().(*timestamppb.Timestamp); ok {
+			fmt.Fprintf(b, "%s=@%d\n", path, ts.AsTime().UnixNano())
+			return
+		}
+	}
 	if !m.IsValid() {
 		fmt.Fprintf(b, "%s=<nil>\n", path)
 		return
